@@ -475,6 +475,13 @@ def run(ctx, t0):
         for f_ in ra.findings:
             f_.rule = "C08.R7"
         rules.append(ra)
+        from rules import C05
+        rs = C05.rule_staging(facts)
+        rs.rule = "C08.R8"
+        rs.title = "header staging of the streaming decoder loses nothing whatever the header length of the option"
+        for f_ in rs.findings:
+            f_.rule = "C08.R8"
+        rules.append(rs)
     expl = ("Static: byte widths of the resolved read callees per option arm, provenance of the stored size per arm, "
             "dominance/path checks of the size test, the final equality and the end-marker acceptance, and the "
             "provenance of the copy length handed to the window. Declined: that the numbers produced equal the "
